@@ -184,14 +184,14 @@ impl ProtobufBackend {
                 ty::TyKind::Bool => "bool",
                 ty::TyKind::BytesVec | ty::TyKind::Bytes => "bytes",
                 ty::TyKind::I32 if prost_type == Some(ProstType::SFixed32) => "sfixed32",
+                ty::TyKind::I32 if prost_type == Some(ProstType::SInt32) => "sint32",
                 ty::TyKind::I32 => "int32",
                 ty::TyKind::I64 if prost_type == Some(ProstType::SFixed64) => "sfixed64",
+                ty::TyKind::I64 if prost_type == Some(ProstType::SInt64) => "sint64",
                 ty::TyKind::I64 => "int64",
                 ty::TyKind::UInt32 if prost_type == Some(ProstType::Fixed32) => "fixed32",
-                ty::TyKind::UInt32 if prost_type == Some(ProstType::SInt32) => "sint32",
                 ty::TyKind::UInt32 => "uint32",
                 ty::TyKind::UInt64 if prost_type == Some(ProstType::Fixed64) => "fixed64",
-                ty::TyKind::UInt64 if prost_type == Some(ProstType::SInt64) => "sint64",
                 ty::TyKind::UInt64 => "uint64",
                 ty::TyKind::F32 => "float",
                 ty::TyKind::F64 => "double",
